@@ -9,7 +9,10 @@ mkdir -p .work evidence
 /venv/bin/python harness/gen_all.py || exit 1
 cd coq || exit 1
 coq_makefile -f _CoqProject -o Makefile >/dev/null || exit 1
-timeout 3000 make -k -j16 >"$HERE/.work/setup_build.log" 2>&1
+# build only what the claimed checks need (the closure of Props/<ID>.vo for every id in MANIFEST.json);
+# files of properties still under construction are compiled by their own check when it runs.
+TARGETS=$(/venv/bin/python -c "import json;print(' '.join('Props/%s.vo'%c['property_id'] for c in json.load(open('$HERE/MANIFEST.json'))['checks']))")
+timeout 3000 make -k -j16 $TARGETS >"$HERE/.work/setup_build.log" 2>&1
 rc=$?
 tail -5 "$HERE/.work/setup_build.log"
 test -f Lib/Base.vo || exit 1
